@@ -24,7 +24,8 @@
 (* object, found by the serial of the object that claimed it at dump time).               *)
 EXTENDS Integers, Sequences, FiniteSets, TLC, Json, RemotePickleProps
 
-CONSTANTS Scns, Algo, SeedCopyreg
+CONSTANTS Scns, Algo, SeedCopyreg,
+          InitGuard   \* context.__init__ refuses to start when the thread-local still has a stack (FALSE = the code as written)
 
 VARIABLES scn,                        \* the scenario (never changes)
           pc,                         \* "scan" | "dump" | "load" | "done"
@@ -164,8 +165,9 @@ FinishLeaf ==
          lowraise == scn.pclass = "low" /\ scn.lowfails
          fails == diverges /\ ~scn.fb                     \* object.__reduce_ex__ cannot pickle the type
          differs == diverges /\ scn.fb /\ ~scn.fbsame      \* ... or reduces it differently from the registered reducer
-     IN res0' = [outcome |-> IF lowraise \/ fails THEN "raised:TypeError" ELSE "ok",
-                 eq |-> IF lowraise THEN "T" ELSE IF fails \/ differs THEN "F" ELSE "T",
+         guarded == InitGuard /\ tl[1].has               \* loads() refuses to start on the left-over
+     IN res0' = [outcome |-> IF lowraise \/ fails THEN "raised:TypeError" ELSE IF guarded THEN "raised:AssertionError" ELSE "ok",
+                 eq |-> IF lowraise THEN "T" ELSE IF fails \/ differs \/ guarded THEN "F" ELSE "T",
                  path |-> path]
   /\ pc' = "done"
   /\ tl' = [tl EXCEPT ![1] = [stack |-> <<>>, iter |-> -1, unused |-> TRUE, has |-> FALSE]]
@@ -224,8 +226,16 @@ Del(s, j) == SubSeq(s, 1, j - 1) \o SubSeq(s, j + 1, Len(s))
 CanStart(e) == /\ ex[e].st = "wait"
                /\ \A d \in 1..(e - 1) : ex[d].st = "done" \/ (scn.par /\ e = 2 /\ d = 1)
 \* RemoteState.context(extra_kwargs): __init__ resets the thread-local, __enter__ pushes the top frame
+Fail(e, what) == ex' = [ex EXCEPT ![e].st = "done", ![e].out = what]      \* __exit__ with an exception: nothing is deleted
+\* The thread-local record tl[t] survives a failed load (has = TRUE: __exit__ with an exception deletes nothing),
+\* so FailedLoad ; Load behaviours start the second context on the left-over.  As written __init__ overwrites it;
+\* with InitGuard the assertion in __init__ looks at the attribute that really exists and the load raises.
+StartGuarded(e) ==
+  /\ pc = "load" /\ CanStart(e) /\ InitGuard /\ tl[Thr(e)].has
+  /\ Fail(e, "raised:AssertionError") /\ UNCHANGED tl
+  /\ UNCHANGED <<scn, pc, cq, cs, cached, created, res0, work, memo, gs, ops, claims>>
 Start(e) ==
-  /\ pc = "load" /\ CanStart(e)
+  /\ pc = "load" /\ CanStart(e) /\ ~(InitGuard /\ tl[Thr(e)].has)
   /\ LET P == LoadOf(e).patch IN
      tl' = [tl EXCEPT ![Thr(e)] =
               [stack |-> IF P # <<>> /\ Algo = "asis" THEN <<[pi |-> -1, name |-> "", e |-> FALSE, p |-> <<>>, n |-> 0]>> ELSE <<>>,
@@ -233,7 +243,6 @@ Start(e) ==
   /\ ex' = [ex EXCEPT ![e].st = "run"]
   /\ UNCHANGED <<scn, pc, cq, cs, cached, created, res0, work, memo, gs, ops, claims>>
 
-Fail(e, what) == ex' = [ex EXCEPT ![e].st = "done", ![e].out = what]      \* __exit__ with an exception: nothing is deleted
 
 \* ---- the code as written ----
 ReduceAsIs(e, o) ==
@@ -300,7 +309,8 @@ ExitFixed(e) ==
 Step(e) ==
   /\ pc = "load" /\ ex[e].st = "run"
   /\ LET L == LoadOf(e)  p == ex[e].pos IN
-     IF L.fail = "trunc" /\ p - 1 = L.at /\ L.at <= Len(ops) THEN Fail(e, "raised:injected") /\ UNCHANGED tl
+     \* the stream ends after L.at events / names a class that cannot be imported (before any event)
+     IF L.fail \in {"trunc", "noclass"} /\ p - 1 = L.at /\ L.at <= Len(ops) THEN Fail(e, "raised:injected") /\ UNCHANGED tl
      ELSE IF p > Len(ops) THEN (IF Algo = "asis" THEN ExitAsIs(e) ELSE ExitFixed(e))
      ELSE IF ops[p].op = "R" THEN (IF Algo = "asis" THEN ReduceAsIs(e, ops[p]) ELSE ReduceFixed(e, ops[p]))
      ELSE (IF Algo = "asis" THEN BuildAsIs(e, ops[p]) ELSE BuildFixed(e, ops[p]))
@@ -312,7 +322,7 @@ LoadsDone ==
   /\ UNCHANGED <<scn, cq, cs, cached, created, res0, work, memo, gs, ops, claims, ex, tl>>
 
 Next == ScanOne \/ DumpScan \/ FinishCls \/ PriorFail \/ FinishLeaf \/ DumpStep \/ DumpDone
-        \/ (\E e \in 1..(2 * K) : Start(e) \/ Step(e)) \/ LoadsDone
+        \/ (\E e \in 1..(2 * K) : Start(e) \/ StartGuarded(e) \/ Step(e)) \/ LoadsDone
 Spec == Init /\ [][Next]_vars /\ WF_vars(Next)
 
 (* ================================ projection on (scn, obs) ================================ *)
@@ -371,6 +381,7 @@ R_OptInFalse   == Terminal /\ scn.t = "cls" /\ ~scn.remote /\ scn.op = "rp" /\ c
 R_StdOp        == Terminal /\ scn.t = "cls" /\ scn.op \in StdOps /\ Len(res0.gslog) >= 2
 R_Copyreg      == Terminal /\ scn.t = "leaf" /\ scn.kind = "copyreg"
 R_LateCopyreg  == Terminal /\ scn.t = "leaf" /\ scn.kind = "copyreg_late" /\ res0.path = "copyreg"
+R_FailedThenLoad == pc = "load" /\ \E e \in 2..K : CanStart(e) /\ tl[Thr(e)].has /\ ex[e - 1].out = "raised:injected" /\ LoadOf(e).fail = "none"
 R_LowProto     == Terminal /\ scn.t = "leaf" /\ scn.pclass = "low" /\ scn.lowfails
 R_Siblings     == pc = "load" /\ \E t \in DOMAIN tl : Len(tl[t].stack) >= 3
 R_PatchDelivered == Terminal /\ scn.t = "graph" /\ \E e \in 1..K : ex[e].out = "ok" /\ ex[e].pm # {}
@@ -390,7 +401,7 @@ WitDump == /\ Wit("Warning", R_Warning) /\ Wit("DumpWarning", R_DumpWarning) /\ 
            /\ Wit("PatchDelivered", R_PatchDelivered) /\ Wit("Failure", R_Failure) /\ Wit("Residue", R_Residue)
            /\ Wit("Concurrency", R_Concurrency) /\ Wit("MemoGet", R_MemoGet) /\ Wit("StdPath", R_StdPath)
            /\ Wit("AfterFail", R_AfterFail) /\ Wit("Falsy", R_Falsy)
-           /\ Wit("LateCopyreg", R_LateCopyreg) /\ Wit("LowProto", R_LowProto)
+           /\ Wit("FailedThenLoad", R_FailedThenLoad) /\ Wit("LateCopyreg", R_LateCopyreg) /\ Wit("LowProto", R_LowProto)
 
 \* ---- every terminal state as a case for the replay on the real code ----
 CaseDump == Terminal => PrintT(<<"CASE", ToJson(Rec)>>)
